@@ -235,7 +235,7 @@ def obligations(tier):
     obs = [{"name": n, "fn": n, "params": {}, "timeout": to} for n in ("ob_cross_views", "ob_cross_phase", "ob_auto_views", "ob_unknown_names", "ob_roundtrip")]
     meas = [("Gxy", True), ("coh", True), ("asd", False)] if tier == "quick" else [("Gxy", True), ("coh", True), ("Hxy", True), ("Gxx", True), ("asd", False), ("psd", False), ("cs", True)]
     for which, cross in meas:
-        obs.append({"name": "ob_measurement/%s" % which, "fn": "ob_measurement", "params": {"which": which, "cross": cross}, "timeout": to})
+        obs.append({"name": "ob_measurement/%s" % which, "fn": "ob_measurement", "params": {"which": which, "cross": cross}, "timeout": to, "fork": True, "max_paths": 200})
     pats = [(1,), (2,), (2, 2), (1, 2), (3, 3, 3), (2, 3, 2)] + ([(1, 1), (3, 3), (1, 1, 1), (2, 2, 3)] if tier == "thorough" else [])
     for Ks in pats:
         for cross in (True, False):
